@@ -16,7 +16,7 @@ Definition covered (a : darr) (o : op) : bool :=
   | OReduce _ _ _ | OFlatten _ _ _ | OPercentile _ _ _ _ | OCum _ _ _ | ODiff _ _ _ _ | OArgExt _ _ | ODropna _ _
   | OGet _ _ _ | OPut _ _ _ _ | OScalarOp _ _ _ _ | ONdarrayOp _ _ | OReindex _ _ _ _ _ _ _ | OReindexAxisObj _ | OReindexLike _
   | OFillna _ _ | OSetna _ | OSetnaMask _ | OPutMask _ _ _ | OTakeAxisLabel _ _ | OTakeAxisPos _ _ | OCompressAxis _ _
-  | OSortAxis _ | OSortAxisKey _ _ | OInterp _ _ _ _ _ | OInterpLike _ _ _ | OSetLabel _ _ _ _ | OSetDims _ | OIdentity
+  | OSortAxis _ | OSortAxisKey _ _ | OInterp _ _ _ _ _ | OInterpLike _ _ _ | OSetLabel _ _ _ _ | OSetDims _ | OSetAxis _ _ _ _ | OIdentity
   | OAlign _ _ _ | OBinop _ _ | OBinopR _ _ | OBroadcastArrays | OBroadcastTo _ | OConcat _ _ _ => true
   | OStack nm _ _ _ _ => match nm with Some n => negb (String.eqb n "") | None => true end
   | OBroadcast axs => negb (existsb (String.eqb "") (map aname axs))
@@ -87,6 +87,15 @@ Proof.
   - destruct (negb (_ =? _)) eqn:El; [discriminate|]. destruct (negb (distinct_str ns)) eqn:Ed; [discriminate|].
     destruct (existsb _ ns) eqn:Ee; [discriminate|]. injection H as <-.
     apply negb_false_iff in El, Ed. apply Nat.eqb_eq in El. apply set_dims_wf; assumption.
+  - destruct (axis_info a r) as [i|] eqn:Ea; simpl in H; [|discriminate].
+    destruct name as [n|].
+    + destruct (mem_str n (remove_nth i (dims a)) || String.eqb n "") eqn:En; [discriminate|].
+      destruct (negb (_ =? _)) eqn:El; [discriminate|]. injection H as <-.
+      apply orb_false_iff in En. destruct En as [En1 En2]. apply negb_false_iff, Nat.eqb_eq in El.
+      apply set_axis_wf; [exact Hw | apply (axis_info_lt _ _ _ Ea) | exact El | | apply mem_str_false; exact En1].
+      intros ->. discriminate.
+    + destruct (negb (_ =? _)) eqn:El; [discriminate|]. injection H as <-. apply negb_false_iff, Nat.eqb_eq in El.
+      apply set_axis_same_wf; [exact Hw | exact El].
   - injection H as <-. exact Hw.
   - eapply (percentile_wf ins qs scalar kk ax); [exact Hw | exact H].
 Qed.
